@@ -297,6 +297,10 @@ def join(t0: str, t1: str, t2: str, sp: str) -> bool:
     items = [t if k == "s" else FmtStr(Chunk(t, {"bold": True})) for t, k in zip(texts, shape)]
     r = sep.join(items)
     e = sp.join(texts)
+    for it, t, k in zip(items, texts, shape):
+        # the operands are not touched: a FmtStr item still is what it was
+        if k != "s" and (it.s != t or _scells(it) != [(c, {"bold": True}) for c in t]):
+            return verdict(False)
     want = []
     for i, (t, k) in enumerate(zip(texts, shape)):
         if i:
@@ -340,6 +344,9 @@ def concrete(fn, params, args):
                 want += [(c, {"fg": 36}) for c in sp]
             want += [(c, ({} if k == "s" else {"bold": True})) for c in t]
         r = sep.join(items)
+        for it, t, k in zip(items, texts, shape):
+            if k != "s" and (it.s != t or cells(it) != [(c, {"bold": True}) for c in t]):
+                return {"ok": False, "observed": "after the join the item is %r" % (it,), "expected": "items unchanged: %r" % (t,), "call": "%r.join(...)" % (sep,)}
         return {"ok": r.s == sp.join(texts) and cells(r) == want, "observed": repr(r), "expected": fmt_cells(want), "call": "%r.join(%r)" % (sep, items)}
     if fn == "chain":
         t0, t1, w, a, b = args
